@@ -871,3 +871,24 @@ def named_local_behind(fn, op, hops=4):
         else:
             return None
     return None
+
+
+def user_local_behind(fn, op, hops=6):
+    """index of the user (debug-named) local an operand refers to through refs/moves/derefs of temporaries, or None"""
+    pl = op.place
+    for _ in range(hops):
+        if pl is None:
+            return None
+        if fn.local_name(pl.local) is not None:
+            return pl.local
+        defs = [d for d in local_defs(fn).get(pl.local, []) if d[1] in ("assign", "call")]
+        if len(defs) != 1 or defs[0][1] != "assign":
+            return None
+        rv = defs[0][2].rv
+        if rv.k in ("ref", "rawptr", "copy_for_deref"):
+            pl = rv.place
+        elif rv.k == "use" and rv.ops[0].place is not None:
+            pl = rv.ops[0].place
+        else:
+            return None
+    return None
